@@ -41,6 +41,8 @@ pub struct Ctx {
     pub threads: usize,
     /// multiplies every case budget (VERIF_SCALE, default 1.0) — for development only
     pub scale: f64,
+    /// bound on proptest shrink iterations (small for checks whose test function compiles code)
+    pub shrink_iters: u32,
 }
 
 impl Ctx {
@@ -193,6 +195,7 @@ where
             let mk_strategy = &mk_strategy;
             let stop = &stop;
             let seed = ctx.seed;
+            let shrink_iters = ctx.shrink_iters;
             std::thread::Builder::new()
                 .stack_size(64 << 20)
                 .spawn_scoped(sc, move || {
@@ -202,7 +205,7 @@ where
                     cfg.rng_seed = RngSeed::Fixed(
                         seed.wrapping_mul(0x9E3779B97F4A7C15) ^ (shard + 1).wrapping_mul(0xD1B54A32D192ED03) ^ label_hash,
                     );
-                    cfg.max_shrink_iters = 4000;
+                    cfg.max_shrink_iters = shrink_iters;
                     cfg.verbose = 0;
                     cfg.source_file = None;
                     let mut runner = TestRunner::new(cfg);
